@@ -3,7 +3,7 @@ discharge each (const / type / guard / size / audited) or report it."""
 from collections import Counter
 
 from .callgraph import CallGraph
-from .facts import strip_generics, AnchorError
+from .facts import strip_generics, AnchorError, callee_name
 from .pps import enumerate_sites, Discharger, discharge_const, load_audited
 
 _cg_cache = {}
@@ -100,6 +100,82 @@ def check_requires(F, cg, req, fn=None, site=None, D=None):
             if not any(D._edge_dominates(src, tgt, bi) or tgt == bi for src, tgt in arms):
                 return False, "`%s` is incremented at %s outside the %s arm of %s" % (req["local"], fn.loc(fn.blocks[bi]["t"]), "/".join(req["variants"]), req["call"])
         return True, "`%s` only grows on the %s arm of %s" % (req["local"], "/".join(req["variants"]), req["call"])
+    if kind == "range_bounds_produced_by":
+        # K4 index site: every bound of the range it is indexed with is immediately produced (through copies, `?`, match
+        # payloads) by one of the named calls — e.g. byte offsets out of char_indices().nth(..), never a character count
+        from .dataflow import op_place
+        allowed = set(req["calls"])
+        args = site.node.get("args") or []
+        if len(args) < 2:
+            return False, "not an index call"
+        rp = op_place(args[1])
+        rd = D.defs.single(rp["l"]) if rp is not None and not rp["p"] else None
+        if not (rd and rd[0] == "st" and rd[3]["k"] == "=" and rd[3]["rv"]["k"] == "agg"):
+            return False, "the index is not a range literal"
+
+        def producers(o, depth=8, seen=None):
+            """set of immediate producers over every definition of the operand"""
+            seen = seen if seen is not None else set()
+            p = op_place(o)
+            if p is None:
+                return {"constant"}
+            if depth == 0 or p["l"] in seen:
+                return {"?"}
+            if 1 <= p["l"] <= fn.argc and not D.defs.defs.get(p["l"]):
+                return {"argument %s" % (fn.local_name(p["l"]) or p["l"])}
+            seen = seen | {p["l"]}
+            out = set()
+            dl = D.defs.defs.get(p["l"], [])
+            if not dl:
+                return {"argument %s" % (fn.local_name(p["l"]) or p["l"])} if 1 <= p["l"] <= fn.argc else {"?"}
+            for d in dl:
+                if d[0] == "call":
+                    n = strip_generics(callee_name(d[3]) or "").split("::")[-1]
+                    if n in ("branch", "unwrap", "expect", "clone", "into", "from") and d[3]["args"]:
+                        out |= producers(d[3]["args"][0], depth - 1, seen)
+                    else:
+                        out.add(n)
+                else:
+                    rv = d[3].get("rv", {})
+                    if rv.get("k") == "use":
+                        out |= producers(rv["op"], depth - 1, seen)
+                    else:
+                        out.add("?(%s)" % rv.get("k"))
+            return out
+        prods = set()
+        for o in rd[3]["rv"]["ops"]:
+            prods |= producers(o)
+        bad = sorted(x for x in prods if x not in allowed and x != "constant")
+        if bad:
+            return False, "a bound of the slicing range is produced by %s, not by %s" % (bad[0], "/".join(sorted(allowed)))
+        return True, "range bounds produced by %s" % "/".join(sorted(prods))
+    if kind == "operand_from_op":
+        # one operand of the asserted operation is itself the result of the named checked operation in the same function
+        # (pins an evaluation order such as `a - b + 1`, where `a + 1 - b` can overflow)
+        from .dataflow import op_place
+        want = req["op"]
+        for o in site.node["ops"]:
+            p = op_place(o)
+            for _ in range(4):
+                if p is None:
+                    break
+                d = D.defs.single(p["l"])
+                if d is None or d[0] != "st" or d[3]["k"] != "=":
+                    break
+                rv = d[3]["rv"]
+                if rv["k"] == "use":
+                    q = op_place(rv["op"])
+                    if q is not None and q["p"] and isinstance(q["p"][0], dict) and q["p"][0].get("f") == 0:
+                        dd = D.defs.single(q["l"])
+                        if dd and dd[0] == "st" and dd[3]["k"] == "=" and dd[3]["rv"]["k"] == "bin" and dd[3]["rv"]["op"].replace("WithOverflow", "") == want:
+                            return True, "an operand is the result of the preceding %s" % want
+                        break
+                    p = q
+                    continue
+                if rv["k"] == "bin" and rv["op"].replace("WithOverflow", "") == want:
+                    return True, "an operand is the result of the preceding %s" % want
+                break
+        return False, "no operand of this operation comes from a preceding %s any more (the evaluation order the argument relies on changed)" % want
     if kind == "only_called_from":
         # every direct/CHA/fn-ref caller of `fn` anywhere in the workspace is one of `callers` (name prefixes)
         targets = [f for f in F.fns.values() if strip_generics(f.name) == req["fn"] or (req.get("trait_method") and f.impl and f.impl.get("trait") == req["trait_method"][0] and f.name.endswith("::" + req["trait_method"][1]))]
@@ -133,6 +209,12 @@ def run_pps(F, R, rule, entry_names, kinds, cha_crates, registry_names=None, arm
         allowed = cg.registry(resolve_roots(F, registry_names))
     seen = cg.reachable(roots, fnptr_allowed=allowed)
     audited = load_audited()
+    all_fn_names = {strip_generics(f.name) for f in F.fns.values()}
+    all_site_keys = set()
+    for fid in seen:
+        f0 = F.fns[fid]
+        if (crate_scope is None or f0.crate in crate_scope) and (fn_filter is None or fn_filter(f0)):
+            all_site_keys |= {s0.key for s0 in enumerate_sites(f0, kinds)}
     used = set()
     n_fns = 0
     n_sites = 0
@@ -155,12 +237,24 @@ def run_pps(F, R, rule, entry_names, kinds, cha_crates, registry_names=None, arm
                 R.undecided(rule, inst, "reachable %s site outside the armed scope (not triaged)" % s.kind, s.loc)
                 hist["undecided"] += 1
                 continue
-            how = discharge_const(s) or D.cond_rule(s) or D.folded_const_rule(s) or D.split_checked_rule(s) or D.type_rule(s) or D.guard_rule(s) or D.widened_rule(s) or D.size_rule(s)
+            how = discharge_const(s) or D.cond_rule(s) or D.folded_const_rule(s) or D.split_checked_rule(s) or D.type_rule(s) or D.guard_rule(s) or D.widened_rule(s) or D.size_rule(s) or D.slice_copy_rule(s)
             if how:
                 R.ok(rule, inst, how, s.loc, how=how.split(":")[0])
                 hist[how.split(":")[0]] += 1
                 continue
             ent = audited.get(inst)
+            moved_from = None
+            if ent is None and "|" in inst:
+                # the site may have moved between sibling nested items of one parent function (closure <-> nested fn, renamed
+                # closure index): same parent, same kind/what/ordinal, and the item the entry names no longer exists
+                fnpart, rest = inst.split("|", 1)
+                parent = fnpart.rsplit("::", 1)[0] if "::" in fnpart else None
+                if parent and (fnpart.rsplit("::", 1)[1].startswith("{closure") or parent in all_fn_names):
+                    cands = [k for k in audited if k.endswith("|" + rest) and "|" in k and k not in all_site_keys
+                             and "::" in k.split("|", 1)[0] and k.split("|", 1)[0].rsplit("::", 1)[0] == parent]
+                    if len(cands) == 1:
+                        ent = audited[cands[0]]
+                        moved_from = cands[0].split("|", 1)[0]
             if ent is not None and R.pid in ent.get("by_prop", {}):
                 # the same callee-level site argued separately per property (different callers reach it)
                 ent = ent["by_prop"][R.pid]
@@ -180,7 +274,7 @@ def run_pps(F, R, rule, entry_names, kinds, cha_crates, registry_names=None, arm
                     R.ok(rule, inst, "audited: %s [re-checked: %s]" % (ent["why"], why), s.loc, how="audited+requires")
                     hist["audited+requires"] += 1
                     continue
-                R.ok(rule, inst, "audited: " + ent["why"], s.loc, how="audited")
+                R.ok(rule, inst, "audited: " + ent["why"] + (" [site moved from %s]" % moved_from if moved_from else ""), s.loc, how="audited")
                 hist["audited"] += 1
                 continue
             hist["undischarged"] += 1
